@@ -47,7 +47,7 @@ fn ss_for(ring: &str, l: &yui_link::Link, reduced: bool) -> i32 {
 
 fn run_sut(case: &Value) -> Out {
     let pd = pd_from_json(&case["pd"]);
-    let l = link_of(&pd);
+    let l = if case["mirror_api"].as_bool().unwrap_or(false) { link_of(&pd).mirror() } else { link_of(&pd) };
     let knot = case["knot"].as_bool().unwrap();
     let mut out = Out { complexes: vec![], lee: vec![], ss: vec![] };
     let h = case["h"].as_i64().unwrap();
@@ -156,22 +156,30 @@ impl Check for C06 {
             diag::draw(rng, max_x)
         };
         let mut name = name;
+        let mut mirror_api = false;
         let from_table = knots.iter().any(|(n, _)| *n == name);
         if from_table {
-            if rng.chance(1, 2) { pd = diag::mirror(&pd); name += "m"; }
+            // mirrored knots: half through an own mirrored PD code, half through `Link::mirror()`
+            if rng.chance(1, 2) {
+                name += "m";
+                if rng.chance(1, 2) { pd = diag::mirror(&pd); } else { mirror_api = true; }
+            }
             if rng.chance(1, 4) {
                 let es = Diagram::from_pd(&pd).edges();
                 pd = diag::add_kink(&pd, *rng.pick(&es), rng.below(4) as u32);
             }
         }
         let pd = diag::permute_crossings(rng, &pd);
-        let o = Diagram::from_pd(&pd).orientation().unwrap();
+        // orientation data always refers to the diagram the library finally computes on
+        let eff = if mirror_api { diag::mirror(&pd) } else { pd.clone() };
+        let o = Diagram::from_pd(&eff).orientation().unwrap();
         let knot = o.components == 1 && !pd.is_empty();
-        let mut case = json!({ "name": name, "group": if from_table { json!(name) } else { json!(null) }, "pd": pd_to_json(&pd), "knot": knot,
+        let mut case = json!({ "name": name, "group": if from_table { json!(name) } else { json!(null) }, "pd": pd_to_json(&pd), "mirror_api": mirror_api, "knot": knot,
             "h": *rng.pick(&[1i64, 2, 3]), "ss_ring": *rng.pick(&["Z,2", "Z,3", "F2[H]", "F3[H]", "Q[H]"]) });
         if knot && rng.chance(2, 3) {
             let k = rng.below(pd.len() as u64) as usize;
-            let sw = Diagram::from_pd(&pd).switch_crossing(k).pd();
+            // the switched diagram is given as a plain PD code of the effective (mirrored) diagram
+            let sw = Diagram::from_pd(&eff).switch_crossing(k).pd();
             case["pd_switched"] = pd_to_json(&sw);
             case["switched_sign"] = json!(o.signs[k]);
         }
@@ -198,6 +206,7 @@ impl Check for C06 {
             Ok(out) => {
                 let pd = pd_from_json(&case["pd"]);
                 let comps = Diagram::from_pd(&pd).orientation().unwrap().components;
+                if case["mirror_api"].as_bool().unwrap_or(false) { rep.counters.insert("mirror_via_api".into(), 1); }
                 if out.ss.len() == 3 { rep.counters.insert("crossing_change_checked".into(), 1); }
                 rep.outcome_class = out.ss.first().map(|(_, v)| format!("ss={v}")).unwrap_or("link".into());
                 rep.detail = out.ss.first().map(|(_, v)| format!("{}:{v}", case["ss_ring"].as_str().unwrap())).unwrap_or_default();
